@@ -42,3 +42,22 @@ Print Assumptions C08_accepted_frame_names_the_dictionary.
 Theorem C08_rescale_lit_freq_total : forall bitCost, 1 <= lit_freq_repaired bitCost <= 1024.
 Proof. exact lit_freq_repaired_bounds. Qed.
 Print Assumptions C08_rescale_lit_freq_total.
+
+(* ---- the LZ compressor model with a dictionary (coq/Codec/EncodeLzFrame.v): history starts as the dictionary content, repeat
+        offsets as the dictionary's; any block split and any parse valid against that history - matches may reach into the
+        dictionary - decodes, with the same dictionary, to the parsed bytes; the frame records the dictionary ID ---- *)
+From ZV.Codec Require Import Encode EncodeProofs EncodeSeq EncodeLzFrame EncodeLzFrameProofs.
+
+Theorem C08_model_dictionary_compression_lossless : forall cfg dc p pbs ebs z rest,
+  let d := Some dc in
+  let content := blocks_content ebs in
+  let win := frame_window p (lenN content) in
+  let blockMax := N.min (N.min win BLOCK_MAX) (c_block_max cfg) in
+  pbs <> [] ->
+  pblocks_run (c_strict_window cfg) win blockMax (z_init d) pbs = Some (ebs, z) ->
+  params_ok p (lenN content) (d_id dc) -> c_magicless cfg = fp_magicless p -> win <= c_window_max cfg ->
+  (exists t, decode_frame cfg d (enc_frame p (d_id dc) ebs ++ rest) = Ok (content, t, rest) /\
+             fh_expected p (lenN content) (d_id dc) (ft_header t)) /\
+  z_hist z = rev content ++ rev' (d_content dc) /\ z_pos z = lenN content.
+Proof. exact lz_model_lossless_dict. Qed.
+Print Assumptions C08_model_dictionary_compression_lossless.
